@@ -442,6 +442,49 @@ class Builder:
                     edits.append(Edit(a + p, a + p + len(old), [Seg(nn, "repo", file=rel,
                                                                     line=rs.line_of(src, a + p), fn=qual)]))
                     self.count(rule)
+            # ---- mid-body obligations: `assert_after <method>`: a proof assertion right after the statement that
+            #      calls `.method(`; `$LET` is the variable that statement binds.  A failed assertion is reported
+            #      as its own obligation and is assumed afterwards, so later clauses are judged relative to it.
+            for (meth, cl) in c.asserts:
+                mm = re.search(r"\.\s*" + re.escape(meth) + r"\s*\(", m[body[0]:body[1]])
+                if not mm:
+                    self.report.setdefault("lost_assert_anchors", []).append("%s after .%s(" % (qual, meth))
+                    continue
+                pos = body[0] + mm.end() - 1
+                k = rs.match_close(m, pos)
+                depth = 0
+                while k < body[1]:
+                    ch = m[k]
+                    if ch in "([{":
+                        depth += 1
+                    elif ch in ")]}":
+                        depth -= 1
+                    elif ch == ";" and depth <= 0:
+                        break
+                    k += 1
+                # the `let` that starts this statement
+                st = body[0] + mm.start()
+                depth = 0
+                while st > body[0]:
+                    ch = m[st]
+                    if ch in ")]}":
+                        depth += 1
+                    elif ch in "([{":
+                        if depth == 0:
+                            break
+                        depth -= 1
+                    elif ch == ";" and depth == 0:
+                        break
+                    st -= 1
+                lm = re.match(r"[;{\s]*let\s+(?:mut\s+)?([A-Za-z_][A-Za-z0-9_]*)", m[st:k])
+                var = lm.group(1) if lm else "vx_no_let"
+                cid = "assert#%s" % (cl.label or meth)
+                txt = expand(cl.text).replace("$LET", var)
+                edits.append(Edit(k + 1, k + 1, [Seg("\n", "contract", fn=qual), Seg("        proof { assert(\n", "contract", fn=qual, clause=cid, line=cl.line, file="contracts.vc"),
+                                                 Seg("            " + txt + "\n", "contract", file="contracts.vc",
+                                                     line=cl.line, fn=qual, clause=cid),
+                                                 Seg("        ); }\n", "contract", fn=qual)]))
+                fnrec["clauses"].append({"id": cid, "kind": "assert", "tags": cl.tags, "text": cl.text})
             # ---- loops
             if c.loops:
                 loops = find_loops(m, body)
@@ -466,16 +509,29 @@ class Builder:
             # ---- closures
             if c.closures:
                 cls = find_closures(m, body)
+                bymeth = {}
+                for ci in cls:
+                    bymeth.setdefault(ci[5], []).append(ci)
                 for n, cs in c.closures.items():
-                    if n >= len(cls):
-                        raise LostAnchor("%s: closure #%d of %s not found" % (rel, n, qual))
-                    p0, p1, b0, b1, is_block = cls[n]
+                    if isinstance(n, str):
+                        meth, _, idx = n.partition("#")
+                        lst = bymeth.get(meth, [])
+                        if int(idx or 0) >= len(lst):
+                            # the closure the contract was written for is gone: the contract is dropped (fewer
+                            # facts for the proof, never more) and the function's own clauses decide
+                            self.report.setdefault("lost_closure_contracts", []).append("%s closure %s" % (qual, n))
+                            continue
+                        p0, p1, b0, b1, is_block, _m = lst[int(idx or 0)]
+                    else:
+                        if n >= len(cls):
+                            raise LostAnchor("%s: closure #%d of %s not found" % (rel, n, qual))
+                        p0, p1, b0, b1, is_block, _m = cls[n]
                     segs = [Seg(cs.header, "contract", file="contracts.vc", fn=qual)]
                     for kwd, clauses in (("requires", cs.requires), ("ensures", cs.ensures)):
                         if clauses:
                             segs.append(Seg("\n            %s\n" % kwd, "contract", fn=qual))
                             for k, cl in enumerate(clauses):
-                                cid = "closure%d.%s#%s" % (n, kwd, cl.label or str(k))
+                                cid = "closure%s.%s#%s" % (n, kwd, cl.label or str(k))
                                 segs.append(Seg("                " + cl.text + ",\n", "contract",
                                                 file="contracts.vc", line=cl.line, fn=qual, clause=cid))
                                 fnrec["clauses"].append({"id": cid, "kind": kwd, "tags": cl.tags, "text": cl.text})
@@ -498,6 +554,54 @@ class Builder:
         for mm in re.finditer(r"\|\s*_\s*\|", m[a:b]):
             edits.append(Edit(a + mm.start(), a + mm.end(), [Seg("|_e|", "repo", fn=qual)]))
             self.count("R3")
+        # R3b: closure parameters that are patterns (`|&x|`, `|(a, b)|`) -> variable + destructuring `let`
+        annotated = set()
+        for (p0, p1, b0, b1, is_block, meth) in find_closures(m, body):
+            params = m[p0:p1]
+            inner = params[params.index("|") + 1:params.rindex("|")]
+            if not re.search(r"[&(]", inner) or ":" in inner:
+                continue
+            parts, depth, cur = [], 0, ""
+            for ch in inner:
+                if ch in "([":
+                    depth += 1
+                elif ch in ")]":
+                    depth -= 1
+                if ch == "," and depth == 0:
+                    parts.append(cur)
+                    cur = ""
+                else:
+                    cur += ch
+            parts.append(cur)
+            names, lets = [], []
+            for k, pt in enumerate(parts):
+                pt = pt.strip()
+                if re.match(r"^[A-Za-z_][A-Za-z0-9_]*$", pt):
+                    names.append(pt)
+                elif pt.startswith("&") or pt.startswith("("):
+                    names.append("vx_p%d" % k)
+                    mref = re.match(r"^&\s*(?:mut\s+)?([A-Za-z_][A-Za-z0-9_]*)$", pt)
+                    if mref:
+                        lets.append("let %s = *vx_p%d; " % (mref.group(1), k))   # `|&x|` is only legal for Copy types
+                    elif pt.startswith("("):
+                        lets.append("let %s = vx_p%d; " % (pt, k))
+                    else:
+                        names = None
+                        break
+                else:
+                    names = None
+                    break
+            if not names or not lets:
+                continue
+            # `_` inside tuple patterns is fine in a `let`
+            pre = m[p0:p0 + params.index("|")]
+            edits.append(Edit(p0, p1, [Seg(pre + "|" + ", ".join(names) + "|", "repo", fn=qual)], order=-4))
+            if is_block:
+                edits.append(Edit(b0 + 1, b0 + 1, [Seg(" " + "".join(lets), "repo", fn=qual)], order=-4))
+            else:
+                edits.append(Edit(b0, b0, [Seg("{ " + "".join(lets), "repo", fn=qual)], order=-4))
+                edits.append(Edit(b1, b1, [Seg(" }", "repo", fn=qual)], order=4))
+            self.count("R3b")
         # R4: uN::from_xx_bytes(E.try_into().unwrap()) -> vx_uN_from_xx_slice(E); X.to_xx_bytes() -> X.vx_to_xx_bytes()
         for mm in re.finditer(r"\b(u16|u32|u64)\s*::\s*from_(be|ne|le)_bytes\s*\(", m[a:b]):
             o = a + mm.end() - 1
@@ -767,6 +871,28 @@ def find_loops(m, body):
     return res
 
 
+def _enclosing_callee(m, a, pos):
+    """name of the function / method whose argument list directly contains position pos (or None)."""
+    depth = 0
+    k = pos - 1
+    while k >= a:
+        ch = m[k]
+        if ch in ")]}":
+            depth += 1
+        elif ch in "([{":
+            if depth == 0:
+                if ch != "(":
+                    return None
+                j = k
+                while j > a and m[j - 1] in " \t\n":
+                    j -= 1
+                mm = re.search(r"([A-Za-z_][A-Za-z0-9_]*)$", m[max(a, j - 40):j])
+                return mm.group(1) if mm else None
+            depth -= 1
+        k -= 1
+    return None
+
+
 def find_closures(m, body):
     """[(params_start, params_end, body_start, body_end, is_block)] for closures in body, textual order.
     params_start..params_end covers `|...|` (and a leading `move `)."""
@@ -811,9 +937,10 @@ def find_closures(m, body):
             if m[k:k + 2] == "->":
                 while m[k] != "{":
                     k += 1
+            meth = _enclosing_callee(m, a, p0)
             if m[k] == "{":
                 e = rs.match_close(m, k)
-                res.append((p0, p1, k, e + 1, True))
+                res.append((p0, p1, k, e + 1, True, meth))
                 # closures nested in this body are still found (continue scanning inside)
                 i = p1
                 continue
@@ -831,7 +958,7 @@ def find_closures(m, body):
                 elif c2 in ",;" and depth == 0:
                     break
                 e += 1
-            res.append((p0, p1, k, e, False))
+            res.append((p0, p1, k, e, False, meth))
             i = p1
             continue
         i += 1
